@@ -3,6 +3,8 @@
 From Coq Require Import List Bool Arith Reals Lra Sorted.
 Import ListNotations.
 From PS Require Import Num RLemmas Valid ModelKernels ModelFuncs ModelAPI Spec SyncDefs Lem_Tau Lem_IsiProps Lem_MinDist Lem_Mrts.
+From Coq Require Import Permutation.
+From PS Require Import Lem_API Lem_WF Lem_API2 Lem_API3 Lem_API4 Lem_API5 Lem_API10.
 Require Import PS.Props.PropTac.
 Local Open Scope R_scope.
 
@@ -76,6 +78,18 @@ Print Assumptions C15_zero_is_plain_spike.
 Theorem C15_zero_is_plain_window : forall a b, 0 < a -> 0 < b -> interp ROps a b 0 = Rmin a b.
 Proof. exact interp_zero. Qed.
 Print Assumptions C15_zero_is_plain_window.
+
+(* ---- from Lem_API10.v ---- *)
+Theorem C15_default_thresh_sq_nonneg : forall l : list (@train R), 0 <= default_thresh_sq ROps l.
+Proof. exact default_thresh_sq_nonneg. Qed.
+Print Assumptions C15_default_thresh_sq_nonneg.
+Theorem C15_auto_thr_sq : forall l, auto_thr l * auto_thr l = default_thresh_sq ROps l.
+Proof. exact auto_thr_sq. Qed.
+Print Assumptions C15_auto_thr_sq.
+Theorem C15_auto_thr_perm : forall l l' ts te, Permutation l l' -> Forall (vtrain ts te) l ->
+  auto_thr l' = auto_thr l.
+Proof. exact auto_thr_perm. Qed.
+Print Assumptions C15_auto_thr_perm.
 
 Example C15_nonvacuous : valid 0 1 [1/4; 1/2; 1] /\ Forall (fun x => 1/8 <= x) [1/4; 1/4; 1/2].
 Proof. split; [valid_tac | repeat constructor; lra]. Qed.
